@@ -1356,3 +1356,133 @@ func c08fastPathOnlyNullFill(c *an.Ctx) {
 	}))
 	f.Guarded(r, send, "pass-through only for fill(null)", an.AtomLike(`^(influxql\.NullFill==recv\.opt\.Fill|recv\.opt\.Fill==influxql\.NullFill)$`, true))
 }
+
+func init() {
+	old := All["C18"].Run
+	All["C18"].Run = func(c *an.Ctx) {
+		old(c)
+		c18stepsBoundedByRange(c)
+	}
+	All["C18"].Rules += " R9"
+	addLevel("C18", "Every store-side evaluation of a range-vector function that walks the steps of the query also bounds the sample window of each step by the range duration (window start = step − range).")
+}
+
+// c18stepsBoundedByRange — C18.R9.  A range-vector function at step t sees the samples in
+// (t − range, t].  The reducers walk the steps in several places (current batch, carried-over ring
+// buffer, last window); a walker that advances the step but never consults the range duration feeds
+// samples older than t − range to the function and never reaches "no samples: no value".
+func c18stepsBoundedByRange(c *an.Ctx) {
+	const E = "engine"
+	r := c.Rule("C18.R9", "K-SIBLING", E+": a function that iterates the steps of a range query (reads ReducerParams.step) bounds each window by ReducerParams.rangeDuration (range vector) or lookBackDelta (instant vector)")
+	step := obj(r, E+":ReducerParams.step")
+	rng := obj(r, E+":ReducerParams.rangeDuration")
+	lbd := obj(r, E+":ReducerParams.lookBackDelta")
+	if step == nil || rng == nil || lbd == nil {
+		return
+	}
+	readsIn := func(o types.Object) map[*an.FuncSrc]ast.Node {
+		m := map[*an.FuncSrc]ast.Node{}
+		for _, s := range c.P.ReadsOf(o) {
+			if s.Caller != nil {
+				if _, ok := m[s.Caller]; !ok {
+					m[s.Caller] = s.Node
+				}
+			}
+		}
+		return m
+	}
+	steps, ranges := readsIn(step), readsIn(rng)
+	for f, at := range readsIn(lbd) { // an instant-vector walker bounds its window by the look-back delta instead
+		ranges[f] = at
+	}
+	n := 0
+	for f, at := range steps {
+		if strings.HasSuffix(c.P.Fset.Position(f.Decl.Pos()).Filename, "_test.go") {
+			continue
+		}
+		// only walkers: the step is added to a time inside a loop
+		walker := false
+		ast.Inspect(f.Decl.Body, func(m ast.Node) bool {
+			switch l := m.(type) {
+			case *ast.ForStmt:
+				ast.Inspect(l, func(k ast.Node) bool {
+					if sel, ok := k.(*ast.SelectorExpr); ok && f.Pkg.TypesInfo.Uses[sel.Sel] == step {
+						walker = true
+					}
+					return true
+				})
+			}
+			return true
+		})
+		if !walker {
+			continue
+		}
+		n++
+		if _, ok := ranges[f]; !ok {
+			r.Fail(an.CallerName(f)+": steps walked without the range", c.P.Pos(at.Pos()), "%s advances through the steps of the range query but never reads ReducerParams.rangeDuration: the window of a step is not cut at step − range, so samples that left the window still enter the function", an.CallerName(f))
+		}
+	}
+	r.AddSites(n)
+	r.Floor(6, "step walkers over ReducerParams")
+}
+
+func init() {
+	old := All["C18"].Run
+	All["C18"].Run = func(c *an.Ctx) {
+		old(c)
+		c18binaryExprDropsName(c)
+	}
+	All["C18"].Rules += " R10"
+	addLevel("C18", "A projected binary expression of a PromQL query (arithmetic, or a comparison with the bool modifier) always drops the metric name: the materialize stage marks every BinaryExpr field, whatever its operator.")
+}
+
+// c18binaryExprDropsName — C18.R10.  Filter comparisons become WHERE conditions; a BinaryExpr that
+// reaches the field list of a PromQL statement is arithmetic or `cmp bool`, and Prometheus drops
+// __name__ for both.  MaterializeTransform is the only place that removes the name for them, keyed by
+// HasBinaryExpr, so the BinaryExpr case of createTransparents sets the flag unconditionally.
+func c18binaryExprDropsName(c *an.Ctx) {
+	const X = "engine/executor"
+	r := c.Rule("C18.R10", "K-PROVENANCE", X+":(*MaterializeTransform).createTransparents — case *influxql.BinaryExpr sets HasBinaryExpr = true unconditionally")
+	f := fn(r, X+":MaterializeTransform.createTransparents")
+	flag := obj(r, X+":MaterializeTransform.HasBinaryExpr")
+	if f == nil || flag == nil {
+		return
+	}
+	n := 0
+	found := false
+	ast.Inspect(f.Body, func(m ast.Node) bool {
+		cc, ok := m.(*ast.CaseClause)
+		if !ok {
+			return true
+		}
+		isBin := false
+		for _, e := range cc.List {
+			if t := f.Info.TypeOf(e); t != nil && strings.HasSuffix(t.String(), "influxql.BinaryExpr") {
+				isBin = true
+			}
+		}
+		if !isBin {
+			return true
+		}
+		found = true
+		for _, st := range cc.Body {
+			as, ok := st.(*ast.AssignStmt)
+			if !ok || len(as.Lhs) != 1 || len(as.Rhs) != 1 {
+				continue
+			}
+			sel, ok := ast.Unparen(as.Lhs[0]).(*ast.SelectorExpr)
+			if !ok || f.Info.Uses[sel.Sel] != flag {
+				continue
+			}
+			n++
+			if tv, ok := f.Info.Types[as.Rhs[0]]; !ok || tv.Value == nil || tv.Value.String() != "true" {
+				r.Fail(f.Name+": name kept for some binary expressions", c.P.Pos(as.Pos()), "the BinaryExpr case sets HasBinaryExpr to %s instead of true: for the operators it excludes (e.g. `up > bool 2`) the metric name stays in the result although Prometheus drops it", types.ExprString(as.Rhs[0]))
+			}
+		}
+		return true
+	})
+	r.AddSites(n)
+	if !found || n == 0 {
+		r.Fail(f.Name+": BinaryExpr case", c.P.Pos(f.Body.Pos()), "createTransparents has no BinaryExpr case that sets HasBinaryExpr unconditionally (case found: %v, stores: %d)", found, n)
+	}
+}
